@@ -76,6 +76,7 @@ JudgeC16(rec) ==
                                         /\ Verifies(ms[s], <<TheOne(b), TheOne(c), TheOne(d)>>, ring, tam)
         \* must verification succeed? (positive path: otherwise "always fail" would pass)
         mustVerify == /\ ShapeClass(ms) = "wellformed" /\ flipped = {} /\ Cardinality(sigs) = 1 /\ mayVerify
+                      /\ MorePackets(ms[TheOne(sigs)]) = <<>>
         theSig == ms[TheOne(sigs)]
         class == IF mustVerify THEN "must-verify" ELSE IF mayVerify THEN "may-verify" ELSE "must-fail"
     IN IF ~rec.built THEN V(TRUE, "aux", "")
@@ -90,7 +91,7 @@ JudgeC16(rec) ==
                 LET a == rec.first.sig_again[k]  r2 == {a.ring[i] : i \in 1..Len(a.ring)} IN
                 /\ a.ok => (a.signer \in r2 /\ unique /\ sigs # {} /\
                             \E s \in sigs : s \notin tam /\ Verifies(ms[s], <<TheOne(b), TheOne(c), TheOne(d)>>, r2, tam))
-                /\ a.ok => a.signer = ms[CHOOSE s \in sigs : TRUE].key,
+                /\ a.ok => a.signer \in {Packets(ms[CHOOSE s \in sigs : TRUE])[q].key : q \in 1..Len(Packets(ms[CHOOSE s \in sigs : TRUE]))},
             "a later CheckDebsig call on the same loaded package succeeded for a keyring that does not hold the signing key">>,
           <<mustVerify => \A k \in 1..Len(rec.reps) : rec.reps[k].ok /\ rec.reps[k].sig_ok /\ rec.reps[k].signer = theSig.key,
             "valid signature by a keyring key over the loaded members was not accepted">>,
